@@ -136,6 +136,8 @@ def r2_dihedral(chk):
 
     def linear(e):
         """{name: coefficient} for +, -, unary -, * numeric constant over names; None if not of that form"""
+        if isinstance(e, ast.Call) and norm(e.func) == "self.dihedral":
+            return {"<dihedral>": 1.0}
         if isinstance(e, ast.Name):
             return {e.id: 1.0}
         if isinstance(e, ast.Constant) and isinstance(e.value, (int, float)):
@@ -159,12 +161,14 @@ def r2_dihedral(chk):
                 return {k: v * r[""] for k, v in l.items()}
         return None
 
-    lin = linear(env.expand(ang, keep=set(dih) | {tparam})) if ang is not None and dih else None
+    lin = linear(env.expand(ang, keep={tparam, a})) if ang is not None else None
     s_ang = None
     if lin is not None:
         lin = {k: v for k, v in lin.items() if v != 0.0}
-        if set(lin) == {tparam, dih[0]} and lin[tparam] == -lin[dih[0]] and abs(lin[tparam]) == 1.0:
+        if set(lin) == {tparam, "<dihedral>"} and lin[tparam] == -lin["<dihedral>"] and abs(lin[tparam]) == 1.0:
             s_ang = int(lin[tparam])
+    ax_def = norm(env.expand(ax, keep={a})) if ax is not None else None
+    ang_def = norm(env.expand(ang, keep={a, tparam})) if ang is not None else None
     s_axis = {f"self.vector({a}[1], {a}[2])": 1, f"self.vector({a}[2], {a}[1])": -1}.get(ax_def)
     vec = prog.func("molli.chem.geometry:CartesianGeometry.vector")
     venv = Env(vec.node)
@@ -188,14 +192,14 @@ def r2_dihedral(chk):
                   if all(v in (1, -1) for v in parts.values()) else "- the angle is not +/-(target - current dihedral) about the bond axis"))
     sub = [n for n, vals in asg.items() for v in vals if isinstance(v, ast.Call) and norm(v.func) == "self.substructure"]
     chk.require(len(sub) == 1, "rotate_dihedral: moved substructure not found")
-    sd = one(sub[0])
+    sd = norm(env.expand(ast.Name(sub[0], ast.Load()), keep={a}))
     chk.decide(sd == f"self.substructure(self.yield_bfs({a}[1], {a}[2]))", "C11.R2", f"{f.key}:moved-set", f.where(), sd,
                f"the moved atoms are `{sd}`; they must be exactly those reached from {a}[1] through {a}[2] (the far side of the bond)")
     calls = [c for c in walk_no_nested(f.node) if isinstance(c, ast.Call) and isinstance(c.func, ast.Attribute) and norm(c.func.value) == sub[0] and c.func.attr in ("translate", "transform")]
     seq = [(c.func.attr, norm(c.args[0])) for c in doc_sorted(f.node, calls)]
     if not any(k == "transform" for k, _ in seq):
         raise AnalysisError("rotate_dihedral: the moved part is not rotated through .transform(...) - unknown idiom")
-    org = [n for n, vals in asg.items() for v in vals if isinstance(v, ast.AST) and norm(v) == f"self.get_atom_coord({a}[1])"]
+    org = [n for n, vals in asg.items() for v in vals if isinstance(v, ast.AST) and norm(env.expand(v, keep={a})) == f"self.get_atom_coord({a}[1])"]
     ok = bool(org) and seq == [("translate", f"-{org[0]}"), ("transform", R[0]), ("translate", org[0])]
     chk.decide(ok, "C11.R2", f"{f.key}:pivot-restored", f.where(), f"{seq}",
                f"the moved part goes through {seq}; it must be translate(-origin), transform(R), translate(origin) with origin = position of {a}[1], otherwise the fragment is displaced, not rotated about the bond")
